@@ -13,11 +13,11 @@ use super::{
 };
 
 /// Per object of the map as the mania difficulty calculation sees it:
-/// `(is_circle, start_time, end_time)`.
+/// `(is_circle, start_time, end_time, combo added by this object)`.
 pub fn object_spans(
     difficulty: &Difficulty,
     map: &Beatmap,
-) -> Result<Vec<(bool, f64, f64)>, ConvertError> {
+) -> Result<Vec<(bool, f64, f64, u32)>, ConvertError> {
     let mut map = map.convert_ref(GameMode::Mania, difficulty.get_mods())?;
 
     if difficulty.get_mods().ho() {
@@ -39,9 +39,15 @@ pub fn object_spans(
         .hit_objects
         .iter()
         .map(|h| {
+            let combo_before = params.max_combo();
             let obj = ManiaObject::new(h, total_columns, &mut params);
 
-            (HitObject::is_circle(h), obj.start_time, obj.end_time)
+            (
+                HitObject::is_circle(h),
+                obj.start_time,
+                obj.end_time,
+                params.max_combo() - combo_before,
+            )
         })
         .collect())
 }
